@@ -141,6 +141,11 @@ class Pipeline:
     def _integrate(self, idx, val, zvars, y, gl_nodes):
         dom = self.domains()
         axes, weights = [], []
+        ncont = sum(1 for v in zvars if dom[v][0] == "cont")
+        if ncont >= 3:
+            raise ref.RefError("quadrature over >= 3 continuous variables is outside the bound of the oracle")
+        if ncont == 2:
+            gl_nodes = min(gl_nodes, 72)
         for v in zvars:
             d = dom[v]
             if d[0] == "disc":
